@@ -97,6 +97,22 @@ impl Net {
         self.nodes.len() - 1
     }
 
+    /// a node comes up at the address of the dead entry `d` (its placeholder socket is closed first)
+    pub fn start_dead(&mut self, d: usize, server: bool, boots: &[usize]) {
+        let addr = self.nodes[d].addr;
+        let port = addr.port();
+        self.dead.retain(|s| match s.local_addr() {
+            Ok(std::net::SocketAddr::V4(a)) => a.port() != port,
+            _ => true,
+        });
+        let addrs: Vec<SocketAddrV4> = boots.iter().map(|b| self.nodes[*b].addr).collect();
+        let configured = matches!(self.public_plan, Some(true));
+        let public = if self.public_plan.is_some() { Some(*addr.ip()) } else { None };
+        let m = Manual::new_cfg_port(&addrs, server, Default::default(), if configured { public } else { None }, port);
+        let id = *m.actor.info().id();
+        self.nodes[d] = SimNode { up: true, m: Some(m), addr, id, server, boots: boots.to_vec() };
+    }
+
     pub fn advance(&mut self, ms: u64) {
         self.now += ms;
         simclock::set_ms(self.now);
